@@ -52,6 +52,13 @@ CLAIMED['C08'] = ('bounded symbolic execution of clang LLVM IR of the loaders ov
 CLAIMED['C12'] = ('bounded symbolic execution of clang LLVM IR of the special members, converting constructors and IO with a heap audit + z3; inductive single steps from an arbitrary API-built pre-state plus bounded histories',
     'One operation (copy/move construct/assign incl. self-assignment, write, destroy, convert, dump/load) with symbolic slot arguments from every pre-state over 2-3 slots (empty/live/moved-from, extents and contents symbolic): all live fields equal their plain-array model, buffers are distinct, nothing leaks, nothing is freed twice or used after free; histories of length 2-3 with symbolic operation choice as a direct tie.', '3.C12')
 
+CLAIMED['C15'] = ('bounded symbolic execution of UBSan-trap-instrumented clang LLVM IR (-O1 NDEBUG and -O0 with assertions) with a memory-safety model + z3; product execution of the -O2 NDEBUG and -O0 IR for build equivalence',
+    'For the kernels and input domains of the other properties: no UBSan trap, unreachable, library assertion, abort or memory-model violation (bounds, lifetime, double free, uninitialised decisions) is reachable, and the optimised NDEBUG build and the assertion-enabled build agree on every observed value for all inputs on which both path conditions hold. Statement about clang-14 IR; counterexamples are replayed on g++ (and clang UBSan) builds.', '3.C15')
+CLAIMED['C16'] = ('bounded symbolic execution of clang LLVM IR of field_view::at with a footprint recorder (stores to shared objects, mutable globals, thread_locals, atomics) + z3; injectivity queries of C01 for disjoint writers',
+    'For every storage order x interpolator x N<=3 and every in-domain coordinate the lookup performs no store to the view, field, buffer or any non-stack object and touches no mutable global state, so no two lookups have a conflicting access: race freedom and determinism for any number of threads and any schedule by a schedule-independent argument; disjoint writers by index injectivity for all extents. Counterexamples are confirmed natively under ThreadSanitizer.', '3.C16')
+CLAIMED['C20'] = ('own symbolic evaluator of the template metaprogram (rules extracted from clang AST on every run) + z3 bit-vectors at every leaf; g++ static_assert instantiation of witnesses and counterexamples',
+    'Sorting yields an ascending rearrangement for every sequence of up to 4 (quick) / 5 (thorough) arbitrary 64-bit values, and the permutation predicate equals multiset equality for length pairs up to (3,3) / (4,4): decided for all values, not an alphabet.', '3.C20')
+
 NA = {
     'C13': 'decided by the C++ type checker (overload resolution, constraints, template instantiation): there is no IR to execute and no SMT encoding of C++ semantic analysis within reach; enumerating and compiling stacks would be a different technique (DESIGN.md section 5)',
 }
